@@ -1083,7 +1083,7 @@ func printableType(t types.Type) (ok bool, dynamic bool, why string) {
 
 func ruleR19_4(w *World, r *Report) {
 	const id = "R19.4"
-	r.Rule(id, "every value package main prints on standard output is a scalar, a string or has a String/Error method: no struct, pointer, slice or map is dumped with default formatting", 32)
+	r.Rule(id, "every value package main prints on standard output is a scalar, a string or has a String/Error method: no struct, pointer, slice or map is dumped with default formatting", 18)
 	t := newTextCtx(w)
 	keys := keyer{}
 	for _, fn := range w.mainFns() {
